@@ -216,7 +216,10 @@ impl ParsedFields<'_, '_> {
 
     fn render_source_as_enum_variant_match_arm(&self) -> Option<TokenStream> {
         let source = self.source?;
-        let pattern = self.data.matcher(&[source], &[quote! { source }]);
+        // `source` is a position among the enabled fields, `matcher()` wants one among all fields.
+        let pattern = self
+            .data
+            .matcher(&[self.data.field_indexes[source]], &[quote! { source }]);
         let expr = render_some(quote! { source });
         Some(quote! { #pattern => #expr })
     }
@@ -256,7 +259,9 @@ impl ParsedFields<'_, '_> {
 
         match self.source {
             Some(source) if source == backtrace => {
-                let pattern = self.data.matcher(&[source], &[quote! { source }]);
+                let pattern = self
+                    .data
+                    .matcher(&[self.data.field_indexes[source]], &[quote! { source }]);
                 Some(quote! {
                     #pattern => {
                         // TODO: Use `derive_more::core::error::Error` once `error_in_core` Rust
@@ -267,7 +272,10 @@ impl ParsedFields<'_, '_> {
             }
             Some(source) => {
                 let pattern = self.data.matcher(
-                    &[source, backtrace],
+                    &[
+                        self.data.field_indexes[source],
+                        self.data.field_indexes[backtrace],
+                    ],
                     &[quote! { source }, quote! { backtrace }],
                 );
                 Some(quote! {
@@ -280,7 +288,10 @@ impl ParsedFields<'_, '_> {
                 })
             }
             None => {
-                let pattern = self.data.matcher(&[backtrace], &[quote! { backtrace }]);
+                let pattern = self.data.matcher(
+                    &[self.data.field_indexes[backtrace]],
+                    &[quote! { backtrace }],
+                );
                 Some(quote! {
                     #pattern => {
                         request.provide_ref::<::std::backtrace::Backtrace>(backtrace);
@@ -347,7 +358,7 @@ fn parse_fields<'input, 'state>(
         add_bound_if_type_parameter_used_in_type(
             &mut parsed_fields.bounds,
             type_params,
-            &state.fields[source].ty,
+            &parsed_fields.data.fields[source].ty,
         );
     }
 
@@ -388,8 +399,10 @@ fn infer_source_field(
 
     // but one of the fields was specified/inferred as backtrace field
     if let Some(backtrace) = parsed_fields.backtrace {
-        // then infer *other field* as source field
-        let source = (backtrace + 1) % 2;
+        // then infer *other field* as source field (if it is not ignored)
+        let indexes = &parsed_fields.data.field_indexes;
+        let other = (indexes[backtrace] + 1) % 2;
+        let source = indexes.iter().position(|i| *i == other)?;
         // unless it was explicitly marked as non-source
         if parsed_fields.data.infos[source].info.source != Some(false) {
             return Some(source);
